@@ -4,11 +4,16 @@ from vt.pipeline import Query
 CLAIM = ('Kernels every planner result rests on, on the real code: PlannerStatus(hasSolution, approximate) and operator bool for all flag '
          'combinations and status values; GoalRegion::isSatisfied (both overloads) for every goal distance/threshold: satisfied exactly when '
          'distance < threshold and the reported distance is the goal distance; PathGeometric::check() for a path of n stub states and EVERY '
-         'validity assignment: passes exactly when the first state and every consecutive motion is valid, motions checked in order.')
-OUT = ('the solve loops of the ~45 geometric/multilevel planners (which states they put on the reported path, approximate bookkeeping, '
-       'interruption): whole-planner runs with nearest-neighbour structures, samplers and shared_ptr/std::function plumbing are far beyond what '
-       'the IR->CBMC route holds; an RRT::solve unit with every callee stubbed exists (C01_rrt.cpp, thorough tier) but is UNDECIDED - symbolic execution of the shared_ptr<PathGeometric> release path does not finish - and therefore not part of the claim')
-ASSUMPTIONS = ['state space, validity checker and motion validator are environment stubs']
+         'validity assignment: passes exactly when the first state and every consecutive motion is valid, motions checked in order. '
+         'SOLVE LOOP OF A REAL PLANNER: geometric::RRT::solve (real code incl. path assembly with make_shared<PathGeometric>, PathGeometric::append) against a fully nondeterministic '
+         'environment - start states, sampler and goal sampling, ANY stored motion as nearest neighbour, every distance, every motion-validity and goal verdict, the termination condition '
+         'firing at evaluation 0..k: a solution status is returned exactly when one path was added; the path starts at a start state, every consecutive pair was accepted by the motion '
+         'validator, an exact solution ends on a state the goal accepted, an approximate one on the closest state tried with the reported difference being the goal\'s verdict on it and '
+         'the status/flag agreeing; without a start state INVALID_START and no path; solve() stops at the first true evaluation of the termination condition; no state is leaked or freed twice.')
+OUT = ('the solve loops of the other ~44 geometric/multilevel planners; RRT beyond the bound (more than 2 loop iterations / 2 starts), its addIntermediateStates mode, resumed solves with a '
+       'populated tree, setup()/clear()/getPlannerData; bounds of path states and the 2x-resolution clause (states come from the stub space); an RRT::solve unit with every callee stubbed exists (C01_rrt.cpp, thorough tier) but is UNDECIDED - symbolic execution of the shared_ptr<PathGeometric> release path does not finish - and therefore not part of the claim')
+ASSUMPTIONS = ['state space, validity checker and motion validator are environment stubs',
+               'RRT unit: Planner::checkValidity/getName, PlannerInputStates::nextStart, PlannerTerminationCondition::eval, ProblemDefinition::addSolutionPath, StateSpace::cloneState and __dynamic_cast are harness definitions; shared_ptr release is a C-level model (use count decrement; dropping the last reference is reported); the nearest-neighbour structure returns ANY stored motion']
 TUS = ['src/ompl/base/src/Planner.cpp', 'src/ompl/base/goals/src/GoalRegion.cpp', 'src/ompl/geometric/src/PathGeometric.cpp', 'src/ompl/base/src/SpaceInformation.cpp']
 
 
@@ -21,10 +26,15 @@ def queries(tier):
                         checks='none', bound='path of %d states, every validity assignment' % ns))
     from vt.props.common_spaces import RNG_ENV
     RTUS = ['src/ompl/geometric/planners/rrt/src/RRT.cpp', 'src/ompl/geometric/src/PathGeometric.cpp', 'src/ompl/base/src/SpaceInformation.cpp']
-    # NOT decided in this revision (symbolic execution does not finish: the shared_ptr control block of the reported path makes the
-    # devirtualised release/dispose/destroy calls fan out recursively) - kept as a thorough-tier attempt, never part of the claim unless it returns a verdict
-    for nst, mit in ([] if tier == 'quick' else [(0, 1), (1, 1)]):
+    # the module is compiled with -fno-inline so that shared_ptr's _M_release is a function whose translated body is replaced by a model (c_override):
+    # otherwise the devirtualised release/dispose/destroy calls of the reported path's control block fan out recursively and symbolic execution never ends
+    REL = {'_ZNSt16_Sp_counted_baseILN9__gnu_cxx12_Lock_policyE2EE10_M_releaseEv':
+           '  /* model of shared_ptr release: the use count drops by one; dropping the LAST reference (dispose/destroy through the control block) is not\n'
+           '     modelled - the reported path stays referenced by the problem definition - and is reported if it happens */\n'
+           '  int32_t *uc = (int32_t*)((uint8_t*)v_0 + 8);\n  *uc = *uc - 1;\n'
+           '  if (*uc == 0) { VT_ASSERT(0, "shared_ptr model: the last reference to an object was dropped inside solve()"); __CPROVER_assume(0); }'}
+    for nst, mit in ([(0, 1), (1, 1), (1, 2)] if tier == 'quick' else [(0, 1), (1, 1), (1, 2), (2, 2), (1, 3)]):
         qs.append(Query('rrt_solve[starts=%d,iterations<=%d]' % (nst, mit), 'C01_rrt.cpp', 'harness_rrt_solve', tus=RTUS, defines={'NSTART': nst, 'MAXIT': mit, 'VT_VEC_CAP': 8}, stdmodel=('vec',),
-                        cxxflags=RNG_ENV, unwind=mit + nst + 4, timeout=to, checks='none', mem_gb=20,
+                        cxxflags=RNG_ENV + ('-fno-inline',), c_override=REL, unwind=mit + nst + 4, timeout=to, checks='none', mem_gb=20,
                         bound='geometric::RRT::solve with %d start states, termination condition firing at evaluation 0..%d, every sampler/nearest/distance/validity/goal outcome' % (nst, mit)))
     return qs
